@@ -140,7 +140,22 @@ class C10(Property):
     id = "C10"
     title = "Mapping elements hold exactly the schema's fields, always as elements"
     proof_module = "Proofs.C10"
-    theorems = []
+    theorems = [
+        "Flatland.C10.Proofs.mapinv_init",
+        "Flatland.C10.Proofs.mapinv_step",
+        "Flatland.C10.Proofs.mapinv_run",
+        "Flatland.C10.Proofs.named_after_key",
+        "Flatland.C10.Proofs.undeclared_rejected",
+        "Flatland.C10.Proofs.C10_full_fails",
+    ]
+    level_text = "proof (partial)"
+    level_note = ("mapinv_init/mapinv_step/mapinv_run: the mapping invariant (declared keys only, Dict = exactly its "
+                  "fields in order, required fields of a sparse-required mapping, children of the declared class under "
+                  "the field's name with the mapping as stored parent) holds initially and is preserved by every "
+                  "dict-protocol call, accepted or rejected, under the hypothesis that an Element argument passing "
+                  "isinstance is of the field class itself; without it the statement is refuted (C10_full_fails, "
+                  "KF-C10-a). set_flat and Compound are covered by the Python oracle only")
+    technique = "invariant proof over operation histories (Lean 4) + differential testing against the implementation"
     trusted_base = [
         "dict insertion order and key replacement semantics of CPython dict (modelled as an ordered list of children)",
         "`isinstance(value, field_schema)` modelled as class identity or derivation (cid / isa)",
